@@ -8,10 +8,11 @@ import sys
 
 lane, nl = int(sys.argv[1]), int(sys.argv[2])
 diffs = sys.argv[3:]
-wt = "/tmp/lane%d" % lane
+off = lane + int(os.environ.get("LANE_OFFSET", "0"))
+wt = "/tmp/lane%d" % off
 if not os.path.isdir(wt):
     subprocess.run(["git", "-C", "/repo", "worktree", "add", "-q", "--detach", wt, "HEAD"], check=True)
-env = dict(os.environ, VERIF_REPO=wt, VERIF_TARGET="/tmp/lane%d_t" % lane, VERIF_WORK="/tmp/lane%d_w" % lane)
+env = dict(os.environ, VERIF_REPO=wt, VERIF_TARGET="/tmp/lane%d_t" % off, VERIF_WORK="/tmp/lane%d_w" % off)
 head = subprocess.check_output(["git", "-C", "/repo", "rev-parse", "HEAD"], text=True).strip()
 for i, d in enumerate(diffs):
     if i % nl != lane:
